@@ -366,7 +366,7 @@ impl Engine for C20 {
         format!(
             "every label the server offers at file level, in a type position, in a value position and after '!' (obtained from the real completion handler; the '!' additions as the multiset difference with/without trigger); \
              lexer probes: every lowercase word of length <= {}, every single-edit neighbour (deletion, substitution, insertion over [a-z0-9]) of every offered or source-listed operator name, and the names in lexer.rs's operator arms; \
-             class completion at every offset of every parent-class name of every class/def of every stress-menu workspace (<= {} statements, one- and two-file) and every seed. \
+             class completion at every offset of every parent-class name of every class/def of every workspace over the stress menu extended by 16 classes whose parameter defaults have no computable type (!cond, undefined name, class name as a value, bit range of an integer, unresolved field access) (<= {} statements, one- and two-file) and every seed. \
              non-trivial = offered labels, probes the lexer accepts as operators, workspaces with a parent-class position.",
             tier.pick(4, 5),
             tier.pick(2, 3)
@@ -454,8 +454,24 @@ impl Engine for C20 {
             if stop {
                 return;
             }
-            // 3. class completion
-            let menu = stress_menu();
+            // 3. class completion: the stress menu plus classes whose parameter defaults have no
+            // computable type (a parameter stays a parameter whatever its default looks like)
+            let mut menu = stress_menu();
+            for t in [
+                "class X<int a = !cond(true: 1), int b = 2> : Y;",
+                "class X<int a = undefinedName, string b = \"s\"> : Y;",
+                "class X<int a = Y, int b = a> : Y;",
+                "class X<int a = 5{0}, int b = later.f> : Y;",
+            ] {
+                for x in ["A", "B"] {
+                    for y in ["A", "B"] {
+                        let st = t.replace('X', "\u{1}").replace('Y', y).replace('\u{1}', x);
+                        if !menu.contains(&st) {
+                            menu.push(st);
+                        }
+                    }
+                }
+            }
             let m = menu.len() as u64;
             let mut w = Vec::new();
             let total = tgv_core::words::count_upto(m, tier.pick(2, 3));
